@@ -37,6 +37,14 @@ def make_cells(ck):
         for c in cf:
             for N in Ns:
                 cells.append(dict(target=t, N=N, n_total=8 * N, mode="vec", **c))
+    # cells outside the product: volume-variation schedule, d=4 (quick: one N; thorough: both)
+    for N in Ns:
+        for kern in ("tpcn", "rwm"):
+            cells.append(dict(target="gauss2", N=N, n_total=8 * N, mode="vec", kernel=kern, resample="mult", clustering=False, volume_variation=1.0))
+            if ck.quick:
+                cells.append(dict(target="gauss4", N=N, n_total=8 * N, mode="vec", kernel=kern, resample="syst", clustering=False))
+            cells.append(dict(target="bimodal", N=N, n_total=8 * N, mode="vec", kernel=kern, resample="syst", clustering=True, volume_variation=2.0,
+                              tkw=dict(p=0.85)))
     return cells
 
 
